@@ -130,7 +130,7 @@ def main():
         "setup_cmd": "cd /verif && ./setup",
         "hooks": {"guard": "COHDL_VERIF", "enable": "no instrumentation hooks are needed; checks import /repo's working tree with PYTHONPATH=/repo (COHDL_VERIF=1 is set but unused)",
                   "baseline_off_cmd": "cd /repo && /venv/bin/python -m pytest -ra -q -p no:cacheprovider --timeout=900 --continue-on-collection-errors",
-                  "source_commits": ["3476bfe", "f803d4c", "1abaf18", "c2629f5", "facaad0", "1fd038a", "3cbec06", "5b71994", "bf02a0d", "bf64bc4", "d02d2a3", "693e83d", "571f6ca", "b791a08", "fd66e52", "cdec138", "648268b", "54fd6e4", "8d199e0", "a252909", "1da1fb5", "8d3d526", "615f499", "f68d635", "73c9e08", "72ebcaa", "215d68c", "5bdcba1", "36732b7", "5a04c14", "b374a2c"], "add_only": True},
+                  "source_commits": ["3476bfe", "f803d4c", "1abaf18", "c2629f5", "facaad0", "1fd038a", "3cbec06", "5b71994", "bf02a0d", "bf64bc4", "d02d2a3", "693e83d", "571f6ca", "b791a08", "fd66e52", "cdec138", "648268b", "54fd6e4", "8d199e0", "a252909", "1da1fb5", "8d3d526", "615f499", "f68d635", "73c9e08", "72ebcaa", "215d68c", "5bdcba1", "36732b7", "5a04c14", "b374a2c", "94f10ee", "66ecb7a", "60980b9", "825f8bb", "3102177", "e0166b5", "efe8b9f", "3a94e11", "6279104"], "add_only": True},
         "engines": [
             {"name": "coq-theories", "path": "/verif/coq", "serves_properties": sorted(CLAIMED), "kind_free_text": "Coq 8.16.1 development: models, semantics, verified checker, property theorems (full .vo build)"},
             {"name": "coq-cases", "path": "/verif/gen", "serves_properties": sorted(CLAIMED), "kind_free_text": "per-run generated obligations evaluated/proved by coqc (vm_compute)"},
